@@ -47,8 +47,6 @@ FUNCTIONS = [
     ("stepup/core/startup.py", None, "rescan_nglobs"),
     ("stepup/core/executor.py", "Executor", "_run_hash_job"),
     ("stepup/core/executor.py", "Executor", "validate_dynamic_job"),
-    ("stepup/core/executor.py", "Executor", "_reset_step_to_pending"),
-    ("stepup/core/workflow.py", "Workflow", "mark_step_pending"),
     ("stepup/core/workflow.py", "Workflow", "mark_consuming_steps_pending"),
     ("stepup/core/workflow.py", "Workflow", "mark_file_outdated"),
     ("stepup/core/workflow.py", "Workflow", "handle_updated_file"),
@@ -76,8 +74,6 @@ FINGERPRINTS = {
     # The difference is GENERATED (gen_validate_flag_mode) and the older shapes break
     # C04_model_matches_generated_facts by name.
     "stepup/core/executor.py:Executor.validate_dynamic_job": ("66c3a31377b03d64", "c64f8ccfa4c864d5", "5c3f511f7670d82c"),
-    "stepup/core/executor.py:Executor._reset_step_to_pending": ("d191ea381b11a367",),
-    "stepup/core/workflow.py:Workflow.mark_step_pending": ("7b5bac766d7f38c3", "a8064bde6c65d522",),  # first: with log-only statements dropped (astutil._DropLogging)
     "stepup/core/workflow.py:Workflow.mark_consuming_steps_pending": ("ea8f95325e91cd94",),
     "stepup/core/workflow.py:Workflow.mark_file_outdated": ("80624a1262d8eb0b", "3e5de8360a06d014",),  # first: with log-only statements dropped (astutil._DropLogging)
     "stepup/core/workflow.py:Workflow.handle_updated_file": ("b5eb3aa537d4511a",),
@@ -319,7 +315,101 @@ def _env_rescan_facts(tree):
     return stores
 
 
-# Executor.try_skip_job is translated structurally: the part up to and including the comparison of the output
+# ---------------------------------------------------------------------------------------------------------
+# Statement-level translation of Workflow.mark_step_pending and Executor._reset_step_to_pending: the functions
+# are INTERPRETED (per old state of the step / as a straight-line transaction) and the effects are generated;
+# a behaviour-preserving rewrite (if/else instead of an early return, a guarded debug log, ...) gives the same
+# table and is accepted, a behaviour change gives another table and breaks a named theorem.
+# ---------------------------------------------------------------------------------------------------------
+_STEP_STATES = ("PENDING", "RUNNING", "SUCCEEDED", "FAILED", "CHECKING")
+_OUTDATE_LOOP = ("for file in step.sinks(File, include_detached=True):\n"
+                 "    if file.get_state() == FileState.BUILT:\n"
+                 "        self.mark_file_outdated(file)")
+
+
+def _is_noise(st):
+    """statements without effect on the stored workflow: pass, log records, a guard around log records"""
+    if isinstance(st, ast.Pass):
+        return True
+    if isinstance(st, ast.Expr) and isinstance(st.value, ast.Call) and ast.unparse(st.value.func).startswith("logger."):
+        return True
+    if isinstance(st, ast.If) and ast.unparse(st.test).startswith("logger.isEnabledFor(") \
+            and all(_is_noise(s) for s in st.body + st.orelse):
+        return True
+    return False
+
+
+def _mark_step_pending_table(tree):
+    """old state -> effects of Workflow.mark_step_pending: 1 = step.set_state(PENDING) (clears deferred),
+    2 = every BUILT output (detached ones included) is made OUTDATED through mark_file_outdated."""
+    fn = find_function(tree, "mark_step_pending", "Workflow")
+    body = body_without_docstring(fn)
+    if [a.arg for a in fn.args.args] != ["self", "step"]:
+        raise TranslatorError("mark_step_pending: signature changed")
+
+    def state_set(test):
+        m = re.fullmatch(r"state in \((.*)\)", ast.unparse(test)) or re.fullmatch(r"state == (.*)", ast.unparse(test))
+        if not m:
+            raise TranslatorError(f"mark_step_pending: condition not recognised: {ast.unparse(test)}")
+        names = [x.strip() for x in m.group(1).split(",") if x.strip()]
+        if not all(n.startswith("StepState.") and n[10:] in _STEP_STATES for n in names):
+            raise TranslatorError(f"mark_step_pending: condition not recognised: {ast.unparse(test)}")
+        return {n[10:] for n in names}
+
+    def run(stmts, state, out, known):
+        for st in stmts:
+            if _is_noise(st):
+                continue
+            if isinstance(st, ast.Return) and st.value is None:
+                return True
+            if isinstance(st, ast.Assign) and ast.unparse(st) == "state = step.get_state()":
+                known.add("state")
+                continue
+            if isinstance(st, ast.If):
+                if "state" not in known:
+                    raise TranslatorError("mark_step_pending: state tested before it is read")
+                neg = isinstance(st.test, ast.UnaryOp) and isinstance(st.test.op, ast.Not)
+                inside = state in state_set(st.test.operand if neg else st.test)
+                if run(st.body if inside != neg else st.orelse, state, out, known):
+                    return True
+                continue
+            if isinstance(st, ast.For) and ast.unparse(st) == _OUTDATE_LOOP:
+                out.append(2)
+                continue
+            if isinstance(st, ast.Expr) and ast.unparse(st) == "step.set_state(StepState.PENDING)":
+                out.append(1)
+                continue
+            raise TranslatorError(f"mark_step_pending: statement not recognised: {ast.unparse(st)[:90]}")
+        return False
+    table = []
+    for state in _STEP_STATES:
+        out = []
+        run(body, state, out, set())
+        table.append((state, out))
+    return table
+
+
+def _reset_to_pending_effects(tree):
+    """Executor._reset_step_to_pending: ONE transaction with, in order, 1 = step.reset_for_rerun(),
+    2 = step.delete_hash(), 3 = step.set_state(PENDING)."""
+    fn = find_function(tree, "_reset_step_to_pending", "Executor")
+    body = [s for s in body_without_docstring(fn) if not _is_noise(s)]
+    if len(body) != 1 or not isinstance(body[0], ast.AsyncWith) or len(body[0].items) != 1 \
+            or ast.unparse(body[0].items[0].context_expr) != "self.db":
+        raise TranslatorError("_reset_step_to_pending: not a single `async with self.db` transaction")
+    codes = {"step.reset_for_rerun()": 1, "step.delete_hash()": 2, "step.set_state(StepState.PENDING)": 3}
+    out = []
+    for st in body[0].body:
+        if _is_noise(st):
+            continue
+        text = ast.unparse(st)
+        if text not in codes:
+            raise TranslatorError(f"_reset_step_to_pending: statement not recognised: {text[:90]}")
+        out.append(codes[text])
+    return out
+
+
+# Executor.try_skip_job is translated structurally:# Executor.try_skip_job is translated structurally: the part up to and including the comparison of the output
 # digests is fingerprinted (TRY_SKIP_PREFIX), the rest - the transaction that records the outcome - is interpreted
 # for both values of `overtaken` (_skip_tail_outcomes), so that a variant of that part is TRANSLATED
 # (gen_skip_overtaken_outcome) and breaks a named theorem instead of a fingerprint.
@@ -550,6 +640,10 @@ def generate(check=True):
         raise TranslatorError("_run_hash_job / _is_stale_confirmation: inconsistent shapes")
     validate_deferred = _validate_unchanged_deferred(ex_tree)
     skip_prefix_fp, skip_overtaken = _skip_job_facts(ex_tree)
+    msp_table = _mark_step_pending_table(parse_module("stepup/core/workflow.py"))
+    rtp_effects = _reset_to_pending_effects(ex_tree)
+    facts["mark_step_pending_table"] = msp_table
+    facts["reset_to_pending_effects"] = rtp_effects
     facts["try_skip_prefix"] = skip_prefix_fp
     if check and skip_prefix_fp not in TRY_SKIP_PREFIX:
         raise TranslatorError(f"stepup/core/executor.py:Executor.try_skip_job: the checking part has shape "
@@ -626,6 +720,13 @@ def generate(check=True):
         "   the step was being checked (_inputs_overtaken): 0 = no such test (before 3ce20a7), 1 = back to PENDING",
         "   with the stored hash (checked again), 2 = _reset_step_to_pending: the hash is dropped (executed next) *)",
         f"Definition gen_skip_overtaken_outcome : N := {int(skip_overtaken)}.",
+        "",
+        "(* Workflow.mark_step_pending interpreted per old state of the step (codes of enums.StepState): the effects in",
+        "   order, 1 = set_state(PENDING), 2 = every BUILT output (detached ones included) goes OUTDATED *)",
+        "Definition gen_mark_step_pending_table : list (N * list N) := ["
+        + "; ".join(f"({enums.StepState[s].value}, [{'; '.join(map(str, eff))}])" for s, eff in msp_table) + "].",
+        "(* Executor._reset_step_to_pending, one transaction: 1 = reset_for_rerun, 2 = delete_hash, 3 = set_state(PENDING) *)",
+        f"Definition gen_reset_to_pending_effects : list N := [{'; '.join(map(str, rtp_effects))}].",
         "",
         "(* Which mapping provides the values of a step's tracked environment variables: 1 = Executor.base_env",
         "   (os.environ overlaid with the director's infra_env), 2 = os.environ.",
